@@ -123,7 +123,7 @@ func genMAL(c *ctx) {
 	fatalBudget := c.scale(0, 6)  // huge declared counts are fatal (out of memory) or loop for hours: only a few per run, isolated by ./check
 	n := c.scale(60, 2000)
 	for i := 0; i < n; i++ {
-		w := &wgen{rng: c.rng, maxDepth: 1 + c.rng.Intn(3), withTime: c.rng.Intn(3) == 0}
+		w := &wgen{rng: c.rng, maxDepth: 1 + c.rng.Intn(3), withTime: c.rng.Intn(3) == 0, nullLeaves: true}
 		s := w.record(0)
 		v := w.value(s)
 		p := w.plan(s, v, c.rng.Intn(3) == 0)
